@@ -176,6 +176,16 @@ fn payloads() -> Vec<(&'static str, Vec<u8>)> {
         ("scheme: every line huge fixed sizes", all_lines("2147483648-2147483648,c,4294967326-4294967326")),
         ("scheme: every line negative / overflowing / reversed", all_lines("-5-9,99999999999999999999-1,9223372036854775807-1,c,0-0,70000-3")),
         ("scheme: every line 65536 and 65543", all_lines("65536-65536,65543-65543")),
+        // long texts whose character boundaries avoid every plausible byte cap (a slice at a fixed byte offset panics)
+        ("400 x 3-byte characters", "日".repeat(400).into_bytes()),
+        ("'a' + 400 x 3-byte characters", format!("a{}", "日".repeat(400)).into_bytes()),
+        ("'ab' + 400 x 3-byte characters", format!("ab{}", "日".repeat(400)).into_bytes()),
+        ("700 x 2-byte characters", "é".repeat(700).into_bytes()),
+        ("'a' + 700 x 2-byte characters", format!("a{}", "é".repeat(700)).into_bytes()),
+        ("400 x 4-byte characters", "𝄞".repeat(400).into_bytes()),
+        ("100 x 0xff", vec![0xff; 100]),
+        ("1000 x 0xff", vec![0xff; 1000]),
+        ("255 ASCII bytes + a 2-byte character", format!("{}é", "x".repeat(255)).into_bytes()),
     ]
 }
 
